@@ -4,8 +4,17 @@ import json, os, subprocess
 VERIF = os.path.dirname(os.path.dirname(os.path.abspath(__file__)))
 
 HOOK_COMMITS = ["c3d3db1"]
+FIX_COMMITS = ["b26044a"]
 
 CHECKS = {
+ "C14": dict(
+    text="TLC exhaustively checks the BaseFilter visiting protocol (depth-sorted loop, every admissible order, include sets, "
+         "modified bookkeeping) for the modelled filters; every recorded invocation history of the real filter objects "
+         "(plain and interpolatable, reused across fonts, separate glyph set or in place) is validated by the TLA+ trace "
+         "acceptor: outsiders untouched, changes reported, source untouched, equal to a fresh object.",
+    note="Trusted: TLC, the glyph-set projection (exact for geometric filters, digests for cu2qu/remove-overlaps/dotted circle).",
+    technique="TLA+ filter-protocol model; TLC exhaustive check + TLC trace validation of real invocation histories",
+    design="5 C14"),
  "C15": dict(
     text="TLC exhaustively checks the filter algorithms (every 3-glyph component graph x transform set x include subset x "
          "visiting order) against the rendering/anchor clauses, and every recorded invocation of the real filter objects is "
